@@ -49,8 +49,30 @@ CLAIMED = {
   note="Lean kernel; the Ty model is hand-written (tied by correspondence only, ~18k queries per quick run); types outside wf "
        "(built through public constructors that bypass normalisation) are out of scope; nested unions answer `none` in the model's queries.",
   technique="Lean 4 proof over a hand model of the type algebra + differential correspondence + law oracle", ref="DESIGN.md §6 C10"),
+ "C06": dict(
+  text="Lean 4 theorems about the reference semantics Spec (an executable big-step evaluator of the whole language in which "
+       "expressions cannot return an environment): a name denotes the nearest preceding declaration and declaring one name leaves "
+       "all others unchanged; inner frames shadow and are dropped; a function value stores a snapshot that resolves every name "
+       "exactly as the environment did at creation (capture by value; cells are locations, so they stay shared); the body of a "
+       "callee runs in an environment built only from captured values, its own name and its parameters; a call depends on the "
+       "caller's environment only through the values of callee and arguments; blocks, modules, if-set bodies, type arms and for "
+       "bodies bind only inside; a module exports exactly the names of its own top frame. The implementation is tied to Spec by "
+       "differential execution of ~100 scoping templates (every iterator consumer x colliding names, binder kind x scope kind, "
+       "capture/redeclare, returned and passed closures) and seeded type-directed programs, with shrinking.",
+  note="Lean kernel; Spec is hand-written: its agreement with the Rust evaluator (two environments, capture by substitution) is "
+       "established only by the differential stream, whose generator bounds what is seen; imports are not modelled.",
+  technique="Lean 4 proof over a reference semantics + differential program correspondence", ref="DESIGN.md §6 C06"),
 }
 NOT_YET = "machinery for this property is not built yet in this round (planned, see DESIGN.md §6)"
+
+import subprocess
+def _hook_commit():
+    out = subprocess.run(["git", "-C", "/repo", "log", "--format=%H %s"], capture_output=True, text=True).stdout
+    for l in out.splitlines():
+        if " verif:" in l:
+            return l.split()[0]
+    return ""
+HOOK_COMMIT = _hook_commit()
 
 def main():
     checks = []
@@ -68,9 +90,9 @@ def main():
     m = dict(
         version=1,
         setup_cmd="python3 tools/setup.py",
-        hooks=dict(guard="cargo feature `verif`", enable="harness depends on /repo with features=[\"verif\"] (no hook is needed by the checks built so far; none committed yet)",
+        hooks=dict(guard="cargo feature `verif`", enable="harness/Cargo.toml depends on /repo with features = [\"verif\"]: src/verif.rs (type-soundness monitor after every Instruction::exec, fuel in Loop::exec / Function::exec, helper-closure marks in map.rs/filter.rs/iter.rs)",
                    baseline_off_cmd="cd /repo && cargo test --workspace --no-fail-fast --offline",
-                   source_commits=[], add_only=True),
+                   source_commits=[HOOK_COMMIT], add_only=True),
         engines=[dict(name="lean4-model+correspondence", path="/verif/lean, /verif/harness, /verif/tools",
                       serves_properties=sorted(CLAIMED),
                       kind_free_text="Lean 4 model + theorems (lake build, #print axioms audit), source->Lean translator for table-like code, Rust harness / Lean driver differential correspondence")],
